@@ -87,6 +87,12 @@ def int_of(I, st, v):
 
 def cmp_terms(I, st, a, b):
     """returns (lt, eq) z3 bools for two comparable scalar-like values"""
+    da, db = deref_val(I, st, a), deref_val(I, st, b)
+    if isinstance(da, Enum) and isinstance(db, Enum) and (da.fields or db.fields):
+        # e.g. Option::None against Option::Some(x): decided by the variant, then field-wise
+        if da.variant != db.variant:
+            return z3.BoolVal((da.discr or 0) < (db.discr or 0)), z3.BoolVal(False)
+        return cmp_terms(I, st, Agg('()', da.fields), Agg('()', db.fields))
     a = int_of(I, st, a)
     b = int_of(I, st, b)
     if isinstance(a, z3.BoolRef) or isinstance(b, z3.BoolRef):
@@ -727,6 +733,23 @@ def install(I):
     @M(r'^AssertUnwindSafe$', 'AssertUnwindSafe')
     def m_aus(I, st, f, args, fr):
         return I.ret(st, Agg('AssertUnwindSafe', (args[0],)))
+
+    @M(r'(^|::)NonZero::<[iu](8|16|32|64|128|size)>::new$|(^|::)NonZero[IU](8|16|32|64|128|size)::new$', 'NonZero::new (None for zero)')
+    def m_nonzero_new(I, st, f, args, fr):
+        v = args[0]
+        outs = []
+        for s2, z in branch(I, st, v.t == 0):
+            outs.append(Outcome(s2, 'ret', NONE if z else some(v)))
+        return outs
+
+    @M(r'(^|::)NonZero::<[iu](8|16|32|64|128|size)>::get$|(^|::)NonZero[IU](8|16|32|64|128|size)::get$', 'NonZero::get')
+    def m_nonzero_get(I, st, f, args, fr):
+        return I.ret(st, deref_val(I, st, args[0]))
+
+    @M(r'(^|::)Option::<(std::option::)?Option<.*>>::flatten$', 'Option::flatten')
+    def m_flatten(I, st, f, args, fr):
+        v = args[0]
+        return I.ret(st, v.fields[0] if v.variant == 'Some' else NONE)
 
     @M(r'^<(.*) as Default>::default$', 'Default::default')
     def m_default(I, st, f, args, fr):
